@@ -18,6 +18,7 @@ import (
 	"context"
 	"encoding/binary"
 	"encoding/json"
+	"errors"
 	"flag"
 	"fmt"
 	"io/ioutil"
@@ -114,7 +115,10 @@ func child(dir string, run int, length uint64, nappend int, at *atSpec, kill *ki
 		if clean && p == "truncated" && off+1 == next {
 			cancel()
 		}
-		if kill != nil && p == "truncated" && off+1 == next && off >= kill.Off {
+		if kill != nil && kill.Point == "stop" && p == "truncated" && off == kill.Off {
+			cancel() // a graceful stop in the middle of a backlog: the process ends by itself, deferred clean-ups run
+		}
+		if kill != nil && kill.Point != "stop" && kill.Point != "fail" && p == "truncated" && off+1 == next && off >= kill.Off {
 			// the kill point lies behind the resume offset: a harness mistake, not a defect
 			emit(map[string]interface{}{"op": "kill-not-reached", "run": run})
 			cancel()
@@ -137,6 +141,11 @@ func child(dir string, run int, length uint64, nappend int, at *atSpec, kill *ki
 		if at != nil && at.Off == off {
 			appendN(at.N)
 			at = nil
+		}
+		if kill != nil && kill.Point == "fail" && kill.Off == off {
+			// the scheduler refuses this message: Consume gives up with that error, the process ends by itself
+			emit(map[string]interface{}{"op": "cb.fail", "off": off})
+			return errors.New("hand-over refused")
 		}
 		return nil
 	}
@@ -213,7 +222,7 @@ func runScenario(self string, idx int, s scenario) [][]byte {
 			}
 			out = append(out, line)
 		}
-		if rd.Kill != nil && !killed {
+		if rd.Kill != nil && !killed && rd.Kill.Point != "stop" && rd.Kill.Point != "fail" {
 			// the kill point was not reached in this round (e.g. offset beyond the log): stop the consumer
 			add(map[string]interface{}{"op": "kill-not-reached", "run": r + 1})
 		}
